@@ -89,10 +89,13 @@ ReadVerdict(e) ==
   ELSE IF "valid" \in DOMAIN e.obs /\ e.obs.valid # e.preobs.valid THEN "read_changed_validation"
   ELSE "ok"
 
+\* the step (C09 / C12 / C05) and the views (C10) are judged independently: "a+b" when both fail
 Verdict(e, pre) ==
-  LET post == Abs(e.post) IN
-  LET a == StepVerdict(e, pre, post) IN IF a # "ok" THEN a ELSE
-  LET b == ViewsVerdict(e, post) IN IF b # "ok" THEN b ELSE
+  LET post == Abs(e.post)
+      a == StepVerdict(e, pre, post)
+      b == ViewsVerdict(e, post) IN
+  IF a # "ok" /\ b # "ok" THEN a \o "+" \o b
+  ELSE IF a # "ok" THEN a ELSE IF b # "ok" THEN b ELSE
   LET c == EncVerdict(e, post) IN IF c # "ok" THEN c ELSE ReadVerdict(e)
 
 \* a step is judged only from a pre-state that is itself consistent (the step that broke it was reported)
